@@ -20,6 +20,12 @@ case kinds
   random.seed accepts; "refsv": [[SEEDV, key]...] asks for reference runs of fresh instances seeded with the value
   and with the int `key`
 SEEDV = {"k": "int"|"bool"|"str", "v": value} | {"k": "float", "v": [num, den]} | {"k": "bytes"|"bytearray", "v": [byte...]}
+  {"kind": "nested", "levels": [SPEC, OUTER...], "seeds": [s...], "order": [level...], "ops": ["next" | "reset" | ["seed", level, s]...],
+   "record": bool}   OUTER = {"cls": "PSkip"|"PShuffleInput"|"PSwitchOne"|"PCoin", "args": {...}}
+      a seeded stochastic pattern (level 0) nested as the input of seeded stochastic patterns with other seeds (levels 1..), seeded
+      in the given order, then driven from the top (seed on any level through the reference the caller kept).  Returns the events,
+      the events of the REFERENCE composition - every level a stand-alone instance with its own seed whose input is an opaque
+      callable (PFunc) pulling from the stand-alone level below - and the values pulled from the stand-alone level 0, per reset segment
 OP = "next" | "reset" | ["seed", s] | ["seedv", SEEDV]
 Values are encoded {"i": int} | {"f": float} | null | {"l": [...]} | {"o": typename}; outcomes "stop" | {"x": ExceptionName}."""
 import sys, json, random, hashlib
@@ -264,6 +270,84 @@ def inner_of(top, w):
     return top.a if w[0] == "add" else top.pattern
 
 
+def build_outer(spec, src):
+    c, a = spec["cls"], spec["args"]
+    if c == "PSkip":
+        return iso.PSkip(src, a["play"])
+    if c == "PShuffleInput":
+        return iso.PShuffleInput(src, a["every"])
+    if c == "PSwitchOne":
+        return iso.PSwitchOne(src, a["length"])
+    if c == "PCoin":
+        return iso.PCoin(src)
+    raise ValueError("unknown outer class " + c)
+
+
+def case_nested(c):
+    g0 = gstate()
+    levels = c["levels"]
+    # the nest as users write it: Outer(Inner(...).seed(a), ...).seed(b)
+    objs = [build(levels[0])]
+    for sp in levels[1:]:
+        objs.append(build_outer(sp, objs[-1]))
+    rec = None
+    if c.get("record"):
+        rec = Rec()
+        objs[-1].rng = rec
+    for lvl in c["order"]:
+        objs[lvl].seed(c["seeds"][lvl])
+    if rec is not None:
+        rec.epochs[:] = [rec.log]
+    ev = []
+    for op in c["ops"]:
+        if op == "next" or op == "reset":
+            r = do(objs[-1], op)
+            if op == "next":
+                ev.append(r)
+        else:
+            objs[op[1]].seed(op[2])
+    out = {"events": ev, "global_touched": gstate() != g0}
+    if rec is not None:
+        out["epochs"] = rec.epochs
+    # the reference: stand-alone instances, each with its own seed, composed through opaque callables
+    refs = [build(levels[0])]
+    pulls = [[]]
+
+    def puller(k):
+        def pull():
+            try:
+                v = next(refs[k])
+            except StopIteration:
+                if k == 0:
+                    pulls[-1].append("stop")
+                raise
+            except Exception:
+                if k == 0:
+                    pulls[-1].append("raise")
+                raise
+            if k == 0:
+                pulls[-1].append(enc(v))
+            return v
+        return pull
+    for k, sp in enumerate(levels[1:]):
+        refs.append(build_outer(sp, iso.PFunc(puller(k))))
+    for lvl in c["order"]:
+        refs[lvl].seed(c["seeds"][lvl])
+    rev = []
+    for op in c["ops"]:
+        if op == "next":
+            rev.append(do(refs[-1], "next"))
+        elif op == "reset":
+            for r in refs:
+                r.reset()
+            pulls.append([])
+        else:
+            refs[op[1]].seed(op[2])
+    out["ref_events"] = rev
+    out["pulls"] = pulls
+    return out
+
+
 def case_family(c):
     w = c.get("wrap")
     inner = build(c["spec"])
@@ -396,7 +480,7 @@ def main():
         gs = random.getstate()
         try:
             r = {"script": case_script, "world": case_world, "freq": case_freq, "util": case_util,
-                 "family": case_family}[c["kind"]](c)
+                 "family": case_family, "nested": case_nested}[c["kind"]](c)
         except Exception as e:
             r = {"driver_exception": type(e).__name__, "detail": str(e)[:300]}
         random.setstate(gs)
